@@ -17,7 +17,67 @@ func init() {
 		ruleDef{"C16.R2", c16r2},
 		ruleDef{"C16.R3", c16r3},
 		ruleDef{"C16.R4", c16r4},
+		ruleDef{"C16.R5", c16r5},
+		ruleDef{"C16.R6", c16r6},
 	)
+}
+
+// R5: every accepted connection is handed to the per-connection function (where the one increment lives): from the
+// success edge of Accept no path returns from Serve, or accepts again, without having started it.
+func c16r5(r *R) {
+	c := r.C
+	serve, goStmt, _ := serveLoop(r)
+	o := r.Ob("C16.R5", "every-accepted-conn-is-served:"+funcName(serve)).At(serve.Pos()).AtI(goStmt)
+	var acc ssa.Instruction
+	for _, s := range callsIn(serve, "(net.Listener).Accept") {
+		acc = s
+	}
+	if !o.Check(acc != nil, "Accept call not found in Serve") {
+		return
+	}
+	// the success block: successor of the err test on which err == nil
+	n := 0
+	for _, b := range serve.Blocks {
+		if !hasGuard(c.guardStrs(b), "+((net.Listener).Accept(p1)#1 == nil)") || len(b.Preds) != 1 {
+			continue
+		}
+		if hasGuard(c.guardStrs(b.Preds[0]), "+((net.Listener).Accept(p1)#1 == nil)") {
+			continue // not the first block of the success region
+		}
+		n++
+		p := c.escapeFromBlock(serve, b, func(i ssa.Instruction) bool { return i == ssa.Instruction(goStmt) }, func(i ssa.Instruction) bool {
+			return isReturn(i) || i == acc
+		})
+		o.Check(p == nil, "an accepted connection can be dropped without being served (and so without being counted): %v", p)
+	}
+	o.Check(n >= 1, "the success edge of Accept was not found (rule needs re-anchoring)")
+}
+
+// R6: the counter that is incremented is the one the registry exposes: the field is assigned in registerMetrics only,
+// only while it is still unset, and the value is the vector that promauto registered with the server's registry.
+func c16r6(r *R) {
+	c := r.C
+	srv := c.Named("pkg/proxyserver", "Server")
+	r.need(srv != nil, "proxyserver.Server not found")
+	o := r.Ob("C16.R6", "counter-is-the-registered-one")
+	n := 0
+	for _, a := range fieldAccesses(c.FuncsIn(appPkgs...), srv, "metricRequestsTotal") {
+		if a.Kind == "read" {
+			continue
+		}
+		n++
+		o.AtI(a.Instr)
+		st, ok := a.Instr.(*ssa.Store)
+		if !o.Check(ok, "the address of metricRequestsTotal escapes (%s) in %s", a.Kind, funcName(a.Fn)) {
+			continue
+		}
+		o.Check(funcName(a.Fn) == "(*proxyserver.Server).registerMetrics", "metricRequestsTotal is assigned in %s", funcName(a.Fn))
+		e := c.Expr(st.Val)
+		o.Check(strings.HasPrefix(e, "(github.com/prometheus/client_golang/prometheus/promauto.Factory).NewCounterVec(github.com/prometheus/client_golang/prometheus/promauto.With(p0.MetricsRegistry), "), "metricRequestsTotal is set to %s, want the vector promauto registers with server.MetricsRegistry (an unregistered or second vector counts where nobody looks)", e)
+		gs := c.guardStrs(st.Block())
+		o.Check(hasGuard(gs, "-(*proxyserver.Server).metricsRegistered(p0)") || hasGuard(gs, "+(nil == p0.metricRequestsTotal)"), "the counter can be replaced after it was registered (a second Serve call would swap the live counter); guards %v", gs)
+	}
+	o.Check(n == 1, "metricRequestsTotal has %d writers, want exactly one (registerMetrics)", n)
 }
 
 // serveLoop finds Server.Serve and the per-connection function started by its `go` statement on the Accept result.
